@@ -481,8 +481,11 @@ Definition ctx_find_by_fields (w : world) (x : ctx) (names : list str)
       (x1, min_by scored None, None, t)
   end.
 
-(* XmlContext.build_recursive; false = XmlContextError escaped *)
-Fixpoint ctx_build_rec (fuel : nat) (w : world) (x : ctx) (c : cid) (pns : ostr) : ctx * bool * trace :=
+(* XmlContext.build_recursive; false = XmlContextError escaped.  `nested` is true
+   below the class the caller asked for: a failure there is the one a cached
+   ancestor hides (the recursion stops at a cached class) *)
+Fixpoint ctx_build_rec (fuel : nat) (nested : bool) (w : world) (x : ctx) (c : cid) (pns : ostr)
+  : ctx * bool * trace :=
   match fuel with
   | O => (x, true, [])
   | S f =>
@@ -491,13 +494,13 @@ Fixpoint ctx_build_rec (fuel : nat) (w : world) (x : ctx) (c : cid) (pns : ostr)
       | None =>
           let '(x1, om, t1) := ctx_build w x c pns in
           match om with
-          | None => (x1, false, t1 ++ [TRecFail c])
+          | None => (x1, false, if nested then t1 ++ [TRecFail c] else t1)
           | Some m =>
               fold_left (fun (acc : ctx * bool * trace) (v : var) =>
                            let '(xa, ok, ta) := acc in
                            if ok then
                              match v_type v with
-                             | TCls t => let '(xb, ok', tb) := ctx_build_rec f w xa t (m_ns m) in (xb, ok', ta ++ tb)
+                             | TCls t => let '(xb, ok', tb) := ctx_build_rec f true w xa t (m_ns m) in (xb, ok', ta ++ tb)
                              | _ => acc
                              end
                            else acc) (m_vars m) (x1, true, t1)
@@ -556,7 +559,7 @@ Definition exec_call (w : world) (x : ctx) (c : call) : ctx * ans * trace :=
       let '(x1, b, e, t) := ctx_local_names_match w x names c in
       (x1, if e then AErr e_value else ABool b, t)
   | CBuildRecursive c pns =>
-      let '(x1, ok, t) := ctx_build_rec (S (List.length (w_classes w))) w x c pns in
+      let '(x1, ok, t) := ctx_build_rec (S (List.length (w_classes w))) false w x c pns in
       (x1, if ok then AUnit else AErr e_context, t)
   | CBuildXsi => (ctx_build_xsi w x, AUnit, [])
   | CReset => (ctx_reset x, AUnit, [])
@@ -640,7 +643,7 @@ Definition ideal_call (w : world) (c : call) : ans :=
   | CFindSubclass c q => ACls (find (subclass_candidate w c) (ideal_lookup w q))
   | CFindByFields names => ACls (ideal_by_fields w names)
   | CLocalNamesMatch names c => ABool (ideal_names_match w names c)
-  | CBuildRecursive c pns => AUnit
+  | CBuildRecursive c pns => match ideal_build w c pns with Some _ => AUnit | None => AErr e_context end
   | CBuildXsi => AUnit
   | CReset => AUnit
   | CRegister _ _ => AUnit
@@ -1044,7 +1047,7 @@ Fixpoint dec_obj (w : world) (j : json) (c : cid)
                | [] => kok (V (GObj c) (map (V GField) fields)) (score_fields m fields)
                | J (JK key) (val :: _) :: kr =>
                    match find_var m key val with
-                   | None => kerr e_parser (lit "Unknown property")
+                   | None => kerr e_parser (lit "Unknown property " ++ class_name w c ++ 46 :: key)
                    | Some vr =>
                        let one := fun (it : json) (k1 : value -> script) =>
                          match it with
